@@ -91,6 +91,22 @@ fn node_kind_of(name: &str) -> Option<&'static str> {
 }
 
 // (identifiers may begin with digits as long as a letter or '_' follows somewhere: 4foo, 4_foo, 0_ ...)
+const NESTED_SENTENCES: [&str; 14] = [
+    "def X : Foo < Bar < a = 1 > > ;\n",
+    "def X : Foo < Bar < a = 1 > , 2 > ;\n",
+    "def X : Foo < 1 , Bar < a = 1 > > ;\n",
+    "def X : Foo < 1 , Bar < 2 , b = 3 > , c = 4 > ;\n",
+    "def X : Foo < a = Bar < 1 > > ;\n",
+    "def X : Foo < a = Bar < b = 1 > > ;\n",
+    "def X : Foo < Bar < Baz < a = 1 > > , 2 > ;\n",
+    "class C < int p = Foo < Bar < a = 1 > > . f > : Foo < Bar < a = 1 > , p > ;\n",
+    "defvar v = Foo < Bar < a = 1 > > . f ;\n",
+    "defvar v = [ Foo < Bar < a = 1 > , 2 > , Foo < 3 > ] ;\n",
+    "defm M : Foo < Bar < a = 1 > > , Baz < 2 > ;\n",
+    "def X : Foo < !add ( 1 , 2 ) , Bar < a = !if ( true , 1 , 2 ) > > { let f = Foo < Bar < a = 1 > > ; }\n",
+    "foreach i = [ 1 ] in def X # i : Foo < Bar < a = i > , i > ;\n",
+    "let f = Foo < Bar < a = 1 > > in def X : Foo < Bar < 1 > > ;\n",
+];
 const IDS: [&str; 12] = ["A", "b", "Foo", "x1", "_t", "NAME", "4foo", "4_foo", "0_", "32_bit", "_", "x_"];
 const INTS: [&str; 14] = ["0", "7", "42", "0x1F", "0b101", "3", "0xFFFFFFFFFFFFFFFF", "0x8000000000000000", "0xffffffff00000000", "0b1111111111111111111111111111111111111111111111111111111111111111", "9223372036854775807", "0x0", "0b0", "007"];
 const BANGS: [&str; 10] = ["!add", "!if", "!foreach", "!cast", "!strconcat", "!eq", "!size", "!listconcat", "!foldl", "!isa"];
@@ -802,7 +818,21 @@ fn positive(text: &str, derivation: Option<(&Grammar, &DNode, &[(usize, usize)])
                             // two string literals that the grammar keeps apart (end of one value, start of the next
                             // dag argument) are merged by the parser's adjacent-string concatenation
                             "adjacent-strings-merged".to_string()
-                        } else if m.contains("positional argument should be put before named") {
+                        } else if m.contains("positional argument should be put before named") && {
+                            // the known strictness concerns one argument list with a positional argument behind a named
+                            // one; the same message on a sentence without such a list is something else
+                            let lists: Vec<&(String, usize, usize)> = ns.iter().filter(|n| n.0 == "ArgValueList").collect();
+                            let mut per_list: std::collections::BTreeMap<(usize, usize), Vec<(usize, bool)>> = std::collections::BTreeMap::new();
+                            for a in ns.iter().filter(|n| n.0 == "PositionalArgValue" || n.0 == "NamedArgValue") {
+                                if let Some(l) = lists.iter().filter(|l| l.1 <= a.1 && a.2 <= l.2).min_by_key(|l| l.2 - l.1) {
+                                    per_list.entry((l.1, l.2)).or_default().push((a.1, a.0 == "NamedArgValue"));
+                                }
+                            }
+                            per_list.values_mut().any(|v| {
+                                v.sort();
+                                v.iter().position(|x| x.1).map(|i| v[i..].iter().any(|x| !x.1)).unwrap_or(false)
+                            })
+                        } {
                             "positional-after-named-argument".to_string()
                         } else if m.contains("identifier in dag init") {
                             "dag-operator-not-identifier".to_string()
@@ -951,6 +981,18 @@ impl Check for C04 {
         let gs = strict();
         let gl = loose();
         if unit == 0 {
+            // hand-written sentences for nestings the random deriver reaches too rarely: argument lists inside
+            // argument lists (positional and named), in parent lists and in values
+            for t in NESTED_SENTENCES {
+                ctx.current_text(t);
+                match terminals_of(t) {
+                    Some(terms) if gs.recognise(&terms).is_ok() => {
+                        ctx.feature("directed_nested_sentences");
+                        positive(t, None, "directed", ctx);
+                    }
+                    _ => ctx.note(format!("directed sentence is not a sentence of the reference grammar (harness fault, not reported): {}", t)),
+                }
+            }
             // corpus: real-world files parse with zero errors; the repository's own snapshot inputs are sentences
             for f in crate::texts::corpus() {
                 ctx.eval();
@@ -1099,6 +1141,7 @@ impl Check for C04 {
         "reference grammar models/grammar.bnf (syntax.md, rule comments of grammar/*.rs win) read at run time, desugared to a CFG. POSITIVE: random derivations (depth budget 8-21, <= 120 tokens) in which the least-used alternative is preferred, so that every alternative and optional part is derived in every unit (coverage reported); each is rendered with blanks, newlines and comments between tokens, must lex back (reference lexer) to the derived terminals, must parse with zero errors, and every derivation constituent that denotes a syntax-tree node must be reached by a walk that uses ONLY the typed accessors of ast.rs, with exactly its token span, lists in source order, paired accessors (then/else, condition/message, name/value, start/end) not swapped. NEGATIVE: 8-20 single/double token deletions, insertions, duplications, transpositions, replacements per sentence; membership is decided by an Earley recogniser over terminal classes for the grammar with the trailing-separator allowance; a non-sentence must yield >= 1 syntax error; mutants that are still strict sentences are further positives. CORPUS: the 39 LLVM files and the hand-written snippets parse with zero errors. non-trivial = every sentence; distinct by text digest".into()
     }
     fn floors(&self, tier: Tier) -> Vec<(&'static str, u64)> {
+        let _ = NESTED_SENTENCES.len();
         let n = tier.pick(12_000, 250_000);
         vec![("corpus_files", 39), ("sentences", n), ("mutant_non_sentence", n * 4), ("mutant_still_sentence", n / 20), ("constituents_checked", n * 6), ("units_with_full_rule_coverage", tier.pick(32, 240))]
     }
